@@ -58,6 +58,9 @@ func fnShort(f *ssa.Function) string {
 	if o := f.Origin(); o != nil {
 		f = o
 	}
+	if a, ok := formAliases[f]; ok {
+		return a.short
+	}
 	if recv := f.Signature.Recv(); recv != nil {
 		return typeShortNoPtr(recv.Type()) + "." + f.Name()
 	}
